@@ -170,6 +170,8 @@ pub struct Profile {
     pub allow_reindex: bool,
     pub handshake_variants: bool,
     pub client_faults: bool,
+    /// after a reload trigger, emit a burst of open/change/close around the reload window
+    pub reload_bursts: bool,
 }
 
 const LOCKY_METHODS: &[&str] = &[
@@ -215,6 +217,7 @@ pub fn profile(prop: &str) -> Profile {
         allow_reindex: false,
         handshake_variants: false,
         client_faults: false,
+        reload_bursts: false,
     };
     match prop {
         "C27" => base,
@@ -268,6 +271,7 @@ pub fn profile(prop: &str) -> Profile {
             w_emmyrc: 5,
             g: [35, 20, 10, 10, 20, 5],
             allow_reindex: true,
+            reload_bursts: true,
             ..base
         },
         "C30" => Profile {
@@ -286,6 +290,7 @@ pub fn profile(prop: &str) -> Profile {
             allow_pull: false,
             force_push: true,
             allow_reindex: true,
+            reload_bursts: true,
             ..base
         },
         _ => base,
@@ -336,12 +341,18 @@ pub fn generate(prop: &str, seed: u64) -> RunSpec {
     if p.w_change_config > 0 && !swarm.config_request && sw.chance(1, 2) {
         swarm.config_request = true;
     }
+    if p.reload_bursts {
+        // a reload only has a window when something inside it waits for the client
+        swarm.work_done_progress = sw.chance(3, 4);
+        swarm.client_latency_ms = *sw.pick(&[0, 1, 50, 50, 1000, 1000, 3000]);
+    }
 
     let sched = SchedSpec {
         policy: *sw.pick(&[Policy::Random, Policy::Random, Policy::MostlyFifo, Policy::Priority, Policy::Fifo]),
         yield_permille: *sw.pick(&[0, 100, 300, 600]),
         max_yields: *sw.pick(&[1, 2, 3]),
         change_points: *sw.pick(&[0, 1, 2, 4]),
+        event_interval: *sw.pick(&[61, 61, 1, 7, 1000]),
     };
 
     let ndocs = r.range(1, p.max_docs as u64) as usize;
@@ -377,6 +388,42 @@ pub fn generate(prop: &str, seed: u64) -> RunSpec {
         p.w_open, p.w_change, p.w_save, p.w_close, p.w_request, p.w_cancel, p.w_change_config,
         p.w_disk_write, p.w_disk_delete, p.w_watch, p.w_emmyrc, p.w_stray,
     ];
+    // A third of the reload-oriented scripts start with the rarest combination spelled out: one
+    // document open (often one that does not exist on disk), a reload trigger, and the close of
+    // that document aimed at the reload window.
+    if p.reload_bursts && r.chance(1, 3) {
+        let d = (0..ndocs).find(|i| docs[*i].in_workspace && !disk[*i] && r.chance(2, 3)).unwrap_or_else(|| r.usize_below(ndocs));
+        if docs[d].in_workspace {
+            ver[d] += 1;
+            script.push(Step { gap: gen_gap(&mut r, &p, interval), action: Action::Open { doc: d, text: doc_text(d, ver[d], r.below(5) as u32) } });
+            let emmyrc = r.chance(1, 2);
+            if emmyrc {
+                script.push(Step {
+                    gap: Gap::SleepMs(r.range(1, 3000)),
+                    action: Action::EmmyrcWrite { diagnostic_interval: Some(100), enable_reindex: false, reindex_duration: 1000 },
+                });
+                script.push(Step { gap: Gap::Zero, action: Action::Watch { n: 3, dup: false, reverse: false } });
+            } else {
+                cfg_version += 1;
+                script.push(Step { gap: Gap::SleepMs(r.range(1, 3000)), action: Action::ChangeConfig { version: cfg_version } });
+            }
+            if r.chance(1, 2) {
+                ver[d] += 1;
+                script.push(Step { gap: Gap::Yield(r.range(1, 4) as u32), action: Action::Change { doc: d, text: doc_text(d, ver[d], r.below(5) as u32) } });
+            }
+            let base = if emmyrc { 2000u64 } else { 0 };
+            let gap = match r.below(7) {
+                0 => Gap::SleepMs(base + 1),
+                1 => Gap::SleepMs(base + r.range(2, 40)),
+                2 => Gap::SleepMs(base + r.range(40, 300)),
+                3 => Gap::SleepMs(base + r.range(300, 1200)),
+                4 => Gap::SleepMs(base + r.range(1200, 3500)),
+                5 if base == 0 => Gap::Yield(r.range(1, 12) as u32),
+                _ => Gap::SleepMs(base.max(1)),
+            };
+            script.push(Step { gap, action: Action::Close { doc: d } });
+        }
+    }
     let mut guard = 0;
     while script.len() < nsteps && guard < nsteps * 20 {
         guard += 1;
@@ -480,8 +527,62 @@ pub fn generate(prop: &str, seed: u64) -> RunSpec {
             }
             _ => Action::StrayResponse { id: 70_000 + r.below(5) as i32 },
         };
+        let is_trigger = matches!(action, Action::ChangeConfig { .. } | Action::EmmyrcWrite { .. });
+        let is_emmyrc = matches!(action, Action::EmmyrcWrite { .. });
         let gap = gen_gap(&mut r, &p, interval);
         script.push(Step { gap, action });
+        // Faults placed inside operations that create in-flight state: right after a reload
+        // trigger, a short burst of open / change / close lands in (or just around) the reload
+        // window. An .emmyrc.json rewrite only reloads 2 s after its watcher event.
+        if p.reload_bursts && is_trigger && r.chance(2, 3) {
+            if is_emmyrc {
+                pending_watch = pending_watch.saturating_sub(3);
+                script.push(Step { gap: Gap::Zero, action: Action::Watch { n: 3, dup: false, reverse: false } });
+            }
+            let base = if is_emmyrc { 2000u64 } else { 0 };
+            let mut first = true;
+            for _ in 0..r.range(1, 3) {
+                let mut d = r.usize_below(ndocs);
+                // closing the last open document inside the window is the rarest combination
+                let open_docs: Vec<usize> = (0..ndocs).filter(|i| open[*i]).collect();
+                let close_last = open_docs.len() == 1 && r.chance(2, 3);
+                if close_last {
+                    d = open_docs[0];
+                }
+                let action = if open[d] {
+                    if close_last || r.chance(1, 2) {
+                        open[d] = false;
+                        Action::Close { doc: d }
+                    } else {
+                        ver[d] += 1;
+                        Action::Change { doc: d, text: doc_text(d, ver[d], r.below(5) as u32) }
+                    }
+                } else {
+                    open[d] = true;
+                    ver[d] += 1;
+                    Action::Open { doc: d, text: doc_text(d, ver[d], r.below(5) as u32) }
+                };
+                let gap = if first {
+                    first = false;
+                    match r.below(6) {
+                        0 => Gap::SleepMs(base.saturating_sub(1).max(1)),
+                        1 => Gap::SleepMs(base + 1),
+                        2 => Gap::SleepMs(base + r.range(1, 60)),
+                        3 => Gap::SleepMs(base + r.range(100, 1100)),
+                        4 => Gap::SleepMs(base + r.range(1100, 5200)),
+                        _ => if base == 0 { Gap::Yield(r.range(1, 8) as u32) } else { Gap::SleepMs(base) },
+                    }
+                } else {
+                    match r.below(4) {
+                        0 => Gap::Zero,
+                        1 => Gap::Yield(r.range(1, 6) as u32),
+                        2 => Gap::SleepMs(r.range(1, 60)),
+                        _ => Gap::SleepMs(r.range(100, 1500)),
+                    }
+                };
+                script.push(Step { gap, action });
+            }
+        }
     }
 
     if prop == "C29"
